@@ -125,6 +125,16 @@ class FakeSock:
     def faults_left(self):
         return sum(1 for e in self.rscript if is_to(e))
 
+    def owed(self):
+        """(undelivered bytes, faults still in the recv script) in one pass"""
+        parts, nf = [], 0
+        for e in self.rscript:
+            if type(e) is bytes:
+                parts.append(e)
+            else:
+                nf += 1
+        return b''.join(parts), nf
+
 
 class FakeClock:
     """Stands in for the `time` module inside boltons.socketutils while a clk=1 case runs.
@@ -1137,17 +1147,17 @@ class C12(Property):
             res = 'T'       # (for a framing call only the split is read)
         else:
             return 'X~-~0~0'
-        return '%s~%s~%d~%d' % (res, rec['rbuf'], len(unhx(rec['und'])), rec['fl'])
+        return '%s~%s~%d~%d' % (res, rec['rbuf'], rec['ul'], rec['fl'])
 
     @staticmethod
-    def _offers(fs, n0, pend0):
+    def _offers(fs, n0, total):
         """the offers of the sock.send calls made since index n0, or None when every one of them was given
-        everything that was not yet on the wire (pend0 = buffered + new data when the public call began)"""
-        calls = fs.sends[n0:]
-        if not calls:
+        everything that was not yet on the wire (total = bytes on the wire + bytes buffered after the public call,
+        which a send-side call does not change once the data is appended)"""
+        if len(fs.sends) == n0:
             return None
-        w0 = calls[0][1]
-        if all(o == pend0 - (w - w0) for o, w in calls):
+        calls = fs.sends[n0:]
+        if all(o + w == total for o, w in calls):
             return None
         return [o for o, _ in calls]
 
@@ -1339,8 +1349,8 @@ class C12(Property):
                 self._do_rx(bs, op, rec, clock, clk, case['ms'])
                 rb = bs.getrecvbuffer()
                 rec['rbuf'] = hx(bytes(rb)) if isinstance(rb, (bytes, bytearray)) else 'nonbytes'
-                rec['und'] = hx(fs.undelivered())
-                rec['fl'] = fs.faults_left()
+                und, rec['fl'] = fs.owed()
+                rec['und'], rec['ul'] = hx(und), len(und)
                 rec['op_kind'] = op[0]
                 if op[0] != 'm':
                     robs.setdefault(i, []).append(self._obs_tok(rec))
@@ -1363,25 +1373,17 @@ class C12(Property):
         for i, op in enumerate(case['ops']):
             yield
             rec = {'op': i}
-            n0, pend0 = len(fs.sends), self._pend0(bs, op)
+            n0 = len(fs.sends)
             self._do_tx(bs, op, rec, clock, clk, fs)
-            rec['sbuf'] = hx(bytes(bs.getsendbuffer()))
+            sb = bytes(bs.getsendbuffer())
+            rec['sbuf'] = hx(sb)
             rec['wire'] = hx(fs.wire)
             rec['left'] = sum(1 for e in fs.sscript if is_to(e))
             out.append(rec)
             h['w_how'] = list(fs.w_how)
-            o = self._offers(fs, n0, pend0)
+            o = self._offers(fs, n0, len(sb) + len(fs.wire))
             if o:
                 offs[i] = o
-
-    @staticmethod
-    def _pend0(bs, op):
-        """bytes that are not on the wire when a send-side call begins: the send buffer plus the new data"""
-        try:
-            n = len(bytes(bs.getsendbuffer()))
-        except Exception:
-            n = 0
-        return n + (len(unhx(op[1])) if op[0] in ('s', 'sa', 'sf', 'saf') else 0)
 
     def run_duo(self, case):
         """two sockets, calls interleaved as `order` says (then whatever is left of each)"""
@@ -1423,16 +1425,17 @@ class C12(Property):
         robs, offs = {}, {}
         for i, (side, op) in enumerate(case['ops']):
             rec = {'op': i}
-            n0, pend0 = len(fs.sends), (self._pend0(bs, op) if side == 'S' else 0)
+            n0 = len(fs.sends)
             if side == 'R':
                 self._do_rx(bs, op, rec, clock, clk, case['ms'])
             else:
                 self._do_tx(bs, op, rec, clock, clk, fs)
             rb = bs.getrecvbuffer()
             rec['rbuf'] = hx(bytes(rb)) if isinstance(rb, (bytes, bytearray)) else 'nonbytes'
-            rec['und'] = hx(fs.undelivered())
-            rec['fl'] = fs.faults_left()
-            rec['sbuf'] = hx(bytes(bs.getsendbuffer()))
+            und, rec['fl'] = fs.owed()
+            rec['und'], rec['ul'] = hx(und), len(und)
+            sb = bytes(bs.getsendbuffer())
+            rec['sbuf'] = hx(sb)
             rec['wire'] = hx(fs.wire)
             rec['left'] = sum(1 for e in fs.sscript if is_to(e))
             out.append(rec)
@@ -1440,7 +1443,7 @@ class C12(Property):
             if side == 'R' and op[0] != 'm':
                 robs[i] = [self._obs_tok(rec)]
             if side == 'S':
-                o = self._offers(fs, n0, pend0)
+                o = self._offers(fs, n0, len(sb) + len(fs.wire))
                 if o:
                     offs[i] = o
         h = self._hint(case)
@@ -1475,37 +1478,34 @@ class C12(Property):
         wres = []
         woffs = []          # per payload: the offers of the write_ns call, then of each flush after it ('_' = whole)
 
-        def pend():
-            try:
-                return len(bytes(w.bsock.getsendbuffer()))
-            except Exception:
-                return 0
+        def offers(n0):
+            if len(fw.sends) == n0:
+                return None
+            return self._offers(fw, n0, len(bytes(w.bsock.getsendbuffer())) + len(fw.wire))
         for p in case['payloads']:
             offs = []
-            pb = unhx(p)
             n0 = len(fw.sends)
-            pend0 = pend() + (len(str(len(pb))) + 2 + len(pb) if len(pb) <= case['ms'] else 0)
             try:
-                w.write_ns(pb)
+                w.write_ns(unhx(p))
                 wres.append('ok')
-                offs.append(self._offers(fw, n0, pend0))
+                offs.append(offers(n0))
             except CaseTimeout:
                 raise
             except Exception as e:
-                offs.append(self._offers(fw, n0, pend0))
+                offs.append(offers(n0))
                 r = EXC.get(exc_name(e), 'exc:' + exc_name(e))
                 if r == 'timeout':
                     for _ in range(bound):
-                        n0, pend0 = len(fw.sends), pend()
+                        n0 = len(fw.sends)
                         try:
                             w.bsock.flush()
                             r += '+flushed'
-                            offs.append(self._offers(fw, n0, pend0))
+                            offs.append(offers(n0))
                             break
                         except CaseTimeout:
                             raise
                         except Exception as e2:
-                            offs.append(self._offers(fw, n0, pend0))
+                            offs.append(offers(n0))
                             r += '+' + EXC.get(exc_name(e2), 'exc:' + exc_name(e2))
                 wres.append(r)
             woffs.append(offs if any(offs) else [])
@@ -1541,14 +1541,14 @@ class C12(Property):
             except Exception as e:
                 rec['r'] = EXC.get(exc_name(e), 'exc:' + exc_name(e))
             rec['rbuf'] = hx(bytes(rd.bsock.getrecvbuffer()))
-            rec['und'] = hx(fr.undelivered())
-            rec['fl'] = fr.faults_left()
+            und, rec['fl'] = fr.owed()
+            rec['und'], rec['ul'] = hx(und), len(und)
             out.append(rec)
         h = self._hint(case)
         h['ran'] = True
         # the split left behind by read_ns (its final recv(1) may or may not over-read) is free: the model is
         # re-seated on it after every read, and what is compared is rbuf ++ undelivered
-        h['splits'] = ['%s~%d~%d' % (r['rbuf'], len(unhx(r['und'])), r['fl']) for r in out]
+        h['splits'] = ['%s~%d~%d' % (r['rbuf'], r['ul'], r['fl']) for r in out]
         return out
 
     def impl(self, case):
